@@ -1,0 +1,25 @@
+//go:build verif
+
+// Contracts for /verif/govc (comment-only file; never part of a normal build).
+package render
+
+//@ default mode int
+
+// appendNum writes a numeric literal in canonical form. Thin contract: no index is out
+// of range for any literal text, the bytes already in buf stay, and a hexadecimal or
+// binary literal keeps a lower-case "0x" / "0b" prefix whatever the case of the input's
+// (digits are then grouped by 4 and upper-cased; "equal up to digit-grouping
+// underscores and hex case" as a whole is not stated).
+//@ func appendNum
+//@   prop C12
+//@   ensures len(result) >= len(buf) && (base(result) == base(buf) || fresh(base(result)))
+//@   ensures[hexprefix] implies(len(s) >= 2 && s[0] == '0' && (s[1] == 'X' || s[1] == 'x'), len(result) >= len(buf) + 2 && result[len(buf)] == '0' && result[len(buf)+1] == 'x')
+//@   ensures[binprefix] implies(len(s) >= 2 && s[0] == '0' && (s[1] == 'B' || s[1] == 'b'), len(result) >= len(buf) + 2 && result[len(buf)] == '0' && result[len(buf)+1] == 'b')
+//@   wraps add into nonUnderscores
+//@   modifies mem(buf)
+//@   loop 1 invariant 0 <= i && i <= len(s)
+//@   loop 1 decreases len(s) - i
+//@   loop 2 invariant 0 <= i && i <= len(s) && len(buf) >= old(len(buf)) && (base(buf) == old(base(buf)) || fresh(base(buf))) && digitsUntilGroup <= groupLen && (groupLen == 4 || groupLen == 6)
+//@   loop 2 invariant implies(groupLen == 4, len(buf) >= old(len(buf)) + 2 && buf[old(len(buf))] == '0' && (buf[old(len(buf))+1] == 'x' || buf[old(len(buf))+1] == 'b'))
+//@   loop 2 invariant implies(groupLen == 4 && old(s[1] == 'X' || s[1] == 'x'), buf[old(len(buf))+1] == 'x') && implies(groupLen == 4 && old(s[1] == 'B' || s[1] == 'b'), buf[old(len(buf))+1] == 'b')
+//@   loop 2 decreases len(s) - i
